@@ -9,6 +9,16 @@ CHECKS = {
     note="Trusted: TLC, the Er7 reference grammar, the harness' projection (to_er7 text, names of non-empty parsed children). One probe value ('2020') per position; repetitions are not part of the position law.",
     ref="DESIGN.md §4 C02, §3.1"),
 }
+_TREE_TECH = "TLA+ reference container (ElementTree.tla: Succ = allowed outcomes of every public mutator) model-checked by TLC; TLC's dumped state graph is replayed on real elements and every recorded step is judged by the TLC trace specification ElementTreeTrace"
+_TREE_NOTE = "Trusted: TLC, the reference semantics in ElementTree.tla, the public-API projection (children, by-name lookup, parent, to_er7, validate). Bounded: 2 parents, <=3 live objects and <=2 children per parent in the replayed graph (quick samples its states, thorough replays all), concretised on Segment PID and Group ADT_A01_INSURANCE, both validation levels."
+CHECKS.update({
+ "C09": dict(technique=_TREE_TECH, note=_TREE_NOTE, ref="DESIGN.md §4 C09-C12, §3.6",
+    text="Every reachable state of the bounded reference model x every operation (set by name/index/position/object, add, insert, delete, pop, remove, copy, re-parent) is executed on real elements along several paths; TLC decides for each recorded step whether the observed successor state and encoding are among those the ordered-list model allows. The model's own laws (order of untouched siblings kept, locality) are checked as TLC action properties."),
+ "C10": dict(technique=_TREE_TECH, note=_TREE_NOTE, ref="DESIGN.md §4 C09-C12, §3.6",
+    text="After every step of the same replayed behaviours TLC checks the consistency clauses on the observed state: no child listed twice or by two parents, by-name views = list filtered by name (content, order, len), iteration and len agree, every listed child's parent pointer, one version and level per tree; and that calls the reference must refuse (foreign child, other level, STRICT overflow) are refused."),
+ "C12": dict(technique=_TREE_TECH, note=_TREE_NOTE, ref="DESIGN.md §4 C09-C12, §3.6",
+    text="Every state x every rejectable operation (wrong name/class, other validation level, STRICT cardinality overflow, absent child, out-of-range index): whenever the real call raises, TLC requires the projected state (children of both parents, values, held objects) and both encodings to equal the ones before the call."),
+})
 NOT_YET = {}
 def main():
     props = [json.loads(l) for l in open(os.path.join(HERE, "properties.jsonl"))]
